@@ -20,20 +20,23 @@ def ansi_edges(cfg):
     out = set()
     for e in cfg.nodes:
         if e.kind == "T" and isinstance(e.ast, ast.Call) and isinstance(e.ast.func, ast.Attribute) and e.ast.func.attr in ("supports_ansi", "force_ansi"):
+            recv = e.ast.func.value
+            # the decision belongs to the *output* (which also accounts for a formatter that disables ANSI)
+            # or to the formatter's force flag - the raw stream's capability alone is not it
+            if e.ast.func.attr == "supports_ansi" and not (isinstance(recv, ast.Name) and recv.id == "self"):
+                continue
             out.add(e.id)
         if e.kind == "T" and is_self_attr(e.ast, "_format_output"):
             out.add(e.id)
     return out
 
 
-def run(ctx):
+def control_code_rule(ctx, rule_id, reference=None):
     p, cg = ctx.p, ctx.cg
     sec = ctx.cls("clikit.api.io.section_output.SectionOutput")
     out_cls = ctx.cls("clikit.api.io.output.Output")
-    stream_cls = ctx.cls("clikit.api.io.output_stream.OutputStream")
-
     # ---------------------------------------------------------------- R1
-    r = ctx.rule("C15-R1", "GUARD", "a section output emits cursor-control codes only on paths guarded by the ANSI "
+    r = ctx.rule(rule_id, "GUARD", "a section output emits cursor-control codes only on paths guarded by the ANSI "
                  "test (directly, or because the emitting helper is only called from guarded sites)", reference=1)
     emitters = {}
     for name, m in sec.methods.items():
@@ -74,6 +77,17 @@ def run(ctx):
             r.fail(where, node, norm(node)[:80], "cursor-control codes can be written on an output without ANSI support (%s is not guarded by the ANSI test)" %
                    (("the call in " + bad.caller.short) if bad else m.short))
 
+    return r
+
+
+def run(ctx):
+    p, cg = ctx.p, ctx.cg
+    sec = ctx.cls("clikit.api.io.section_output.SectionOutput")
+    out_cls = ctx.cls("clikit.api.io.output.Output")
+    stream_cls = ctx.cls("clikit.api.io.output_stream.OutputStream")
+
+    control_code_rule(ctx, "C15-R1", reference=1)
+
     # ---------------------------------------------------------------- R2
     r = ctx.rule("C15-R2", "RANGE", "on a section output a line ends in exactly one newline, ANSI or not", reference=2)
     ns = NewlineSummary(ctx, stream_cls, out_cls)
@@ -103,13 +117,27 @@ def run(ctx):
     reg_list = norm(reg.func.value)
     kept = any(isinstance(n, ast.Assign) and any(is_self_attr(t) for t in n.targets) and norm(n.value) == reg_list for n in walk_no_nested(init.node))
     loops = [n for n in walk_no_nested(pop.node) if isinstance(n, ast.For)]
-    ctx.require(loops, "no scan over the sections")
-    lp = loops[0]
-    scan_rev = any(isinstance(x, ast.Call) and isinstance(x.func, ast.Name) and x.func.id == "reversed" for x in walk_no_nested(lp.iter))
-    until_self = any(isinstance(n, ast.If) and isinstance(n.test, ast.Compare) and isinstance(n.test.ops[0], ast.Is) and any(isinstance(b, ast.Break) for b in n.body) for n in lp.body)
-    collect_append = any(isinstance(c.func, ast.Attribute) and c.func.attr == "append" for c in q.calls(lp))
-    collect_front = any(isinstance(c.func, ast.Attribute) and c.func.attr == "insert" for c in q.calls(lp))
-    ret_rev = any(isinstance(x, ast.Call) and isinstance(x.func, ast.Name) and x.func.id == "reversed" for ret in q.returns(pop) for x in walk_no_nested(ret.value))
+    slices = [n for n in walk_no_nested(pop.node) if isinstance(n, ast.Subscript) and isinstance(n.slice, ast.Slice) and n.slice.lower is None and n.slice.upper is not None
+              and any(isinstance(c, ast.Call) and isinstance(c.func, ast.Attribute) and c.func.attr == "index" for c in walk_no_nested(n.slice.upper))]
+    ctx.require(loops or slices, "no scan over the sections")
+
+    def rev_in(node):
+        return any((isinstance(x, ast.Call) and isinstance(x.func, ast.Name) and x.func.id == "reversed") or
+                   (isinstance(x, ast.Subscript) and isinstance(x.slice, ast.Slice) and isinstance(x.slice.step, ast.UnaryOp)) for x in walk_no_nested(node))
+    if loops:
+        lp = loops[0]
+        scan_rev = rev_in(lp.iter)
+        until_self = any(isinstance(n, ast.If) and isinstance(n.test, ast.Compare) and isinstance(n.test.ops[0], ast.Is) and any(isinstance(b, ast.Break) for b in n.body) for n in lp.body)
+        collect_append = any(isinstance(c.func, ast.Attribute) and c.func.attr == "append" for c in q.calls(lp))
+        collect_front = any(isinstance(c.func, ast.Attribute) and c.func.attr == "insert" for c in q.calls(lp))
+    else:
+        # slice form: sections[: sections.index(self)] is 'forward until self'; the content is joined from it
+        lp = slices[0]
+        scan_rev = False
+        until_self = True
+        collect_append = True
+        collect_front = False
+    ret_rev = any(rev_in(ret.value) for ret in q.returns(pop) if ret.value is not None)
     reversals = int(front) + int(scan_rev) + int(collect_front) + int(ret_rev)
     desc = "register %s, scan %s%s, collect %s, return %s" % ("front" if front else "back", "reversed" if scan_rev else "forward", " until self" if until_self else "",
                                                          "front" if collect_front else "append", "reversed" if ret_rev else "as collected")
